@@ -35,8 +35,13 @@ class PObj(ObjProxy):
 class Params(tuple):
     tag = '?'
 
-    def __new__(cls, tag):
-        t = super().__new__(cls, [P.AVec.atom('%s[%d]' % (tag, k)) for k in range(6)])
+    def __new__(cls, tag, share=None):
+        # share: (other parameter tuple, slots taken over unchanged from it) -- a load step that changes only some slots
+        slots = [P.AVec.atom('%s[%d]' % (tag, k)) for k in range(6)]
+        if share is not None:
+            for k in share[1]:
+                slots[k] = share[0][k]
+        t = super().__new__(cls, slots)
         t.tag = tag
         return t
 
@@ -139,14 +144,17 @@ def _drivers(S):
         for warm in (True, False):
             for upd in (True, False):
                 _driver(S, relpath, fname, qual, warm, upd)
+        # a "hold" step: the boundary-condition slot is unchanged (the same array), other slots (state, time, design) change
+        _driver(S, relpath, fname, qual, True, True, hold=True)
 
 
-def _driver(S, relpath, fname, qual, warm, upd):
+def _driver(S, relpath, fname, qual, warm, upd, hold=False):
     ns, vc, info = P.load_module(relpath, tag={fname})
     P.SPACE[0] = P.GramSpace()
     obj = PObj()
     x0 = P.AVec.atom('x0')
-    pold, pnew = Params('p_old'), Params('p_new')
+    pold = Params('p_old')
+    pnew = Params('p_new', share=(pold, (0,))) if hold else Params('p_new')
     rec = {}
     is_al_prologue = fname == 'augmented_lagrange_solve'
 
@@ -223,11 +231,11 @@ def _driver(S, relpath, fname, qual, warm, upd):
         if warm:
             o['parameters_still_old_during_warm_start'] = tm.TRUE if rec.get('ws_p') is pold else tm.FALSE
             o['warm_start_targets_new_parameters'] = tm.TRUE if rec.get('ws_pnew') is pnew else tm.FALSE
-            start = rec['ws_x']
+            start = rec.get('ws_x')
             expect_start = x0 if is_al_prologue else obj.scaling * x0
-            o['warm_start_from_scaled_current_point'] = tm.and_(*start.same_as(expect_start))
+            o['warm_start_from_scaled_current_point'] = tm.and_(*start.same_as(expect_start)) if start is not None else tm.FALSE
             o['preconditioner_refreshed_before_warm_start_iff_requested'] = \
-                tm.TRUE if rec['ws_precond_updates_before'] == (1 if upd or is_al_prologue else 0) else tm.FALSE
+                tm.TRUE if rec.get('ws_precond_updates_before') == (1 if upd or is_al_prologue else 0) else tm.FALSE
         else:
             o['no_warm_start_when_disabled'] = tm.TRUE if 'ws_p' not in rec else tm.FALSE
         o['parameters_are_new_when_nonlinear_solver_starts'] = tm.TRUE if rec.get('solver_p') is pnew else tm.FALSE
@@ -252,7 +260,7 @@ def _driver(S, relpath, fname, qual, warm, upd):
                 o['inner_solver_does_not_warm_start_again'] = tm.TRUE if (k.get('useWarmStart') is False) else tm.FALSE
         return o
     rec.clear()
-    P.run_contract(S, '%s[warm=%s,precond=%s]' % (qual, warm, upd), run_, [], post, file=info['file'], gram=False)
+    P.run_contract(S, '%s[warm=%s,precond=%s%s]' % (qual, warm, upd, ',bc-slot-unchanged' if hold else ''), run_, [], post, file=info['file'], gram=False)
 
 
 def _param_index_update(S):
